@@ -373,6 +373,14 @@ func (vc *VC) addrUsesLocal(v ssa.Value, depth int) bool {
 			if !vc.calleeKeepsNoPointer(callee) {
 				return false
 			}
+			// fluent library methods (big.Int/Rat/Float setters) return their receiver: the result is an alias
+			if types.Identical(x.Type(), v.Type()) && len(x.Call.Args) > 0 && x.Call.Args[0] == v {
+				if !vc.addrUsesLocal(x, depth+1) {
+					return false
+				}
+			}
+		case *ssa.Return:
+			return false
 		case *ssa.MakeClosure:
 			// captured by a function literal that is only called or deferred right here (and inlined by the
 			// engine): the cell stays local if the literal's own uses of it are local
@@ -723,9 +731,20 @@ func (vc *VC) unop(fr *Frame, st *State, x *ssa.UnOp) {
 		t := vc.loadPlace(st, v.P)
 		t = vc.named(fr, x, t)
 		vc.assumeLoaded(st, t, x.Type())
-		if v.P.Kind == BGlobal && strings.HasPrefix(v.P.Comp, "GC:") && isPointer(x.Type()) && vc.topEntry.T != nil {
-			// what a constant global points to was allocated before this function was entered
-			vc.assume(st, mk(fmt.Sprintf("(< %s %s)", t.S, vc.topEntry.S), sortBool))
+		if v.P.Kind == BGlobal && isPointer(x.Type()) && vc.topEntry.T != nil {
+			// what a global points to was allocated before this function was entered - for constant globals
+			// always, for other globals as long as the function has not written the variable
+			unwritten := strings.HasPrefix(v.P.Comp, "GC:")
+			if !unwritten && vc.top != nil && vc.top.entrySt != nil {
+				if e, ok := vc.top.entrySt.heap.known[v.P.Comp]; ok {
+					if c, ok2 := st.heap.known[v.P.Comp]; ok2 && c.S == e.S {
+						unwritten = true
+					}
+				}
+			}
+			if unwritten {
+				vc.assume(st, mk(fmt.Sprintf("(< %s %s)", t.S, vc.topEntry.S), sortBool))
+			}
 		}
 		vc.setVal(fr, x, vc.mkVal(t, x.Type()))
 	case token.NOT:
